@@ -265,7 +265,7 @@ def run(prog, rep, tier, repo):
             continue
         f = prog.func(k)
         for c in f.calls():
-            if c.path == 'functions::gamma::gamma' and c.args:
+            if c.path in ('functions::gamma::gamma', 'functions::gamma::ln_gamma') and c.args:
                 a = c.args[0]
                 # argument built from an integer count: (k as f64) [+ 1]
                 base = a
@@ -278,7 +278,7 @@ def run(prog, rep, tier, repo):
     if kp not in pdb.bodies:
         rep.viol('normaliser-agree', key, 'Poisson::pmf disappeared')
     elif len(forms) == 1 and 1.0 in forms:
-        rep.ok('normaliser-agree', key, 'k! is formed as gamma(k + 1) at every site: %s' % sorted(set(short(x) for x in forms[1.0])))
+        rep.ok('normaliser-agree', key, 'k! is formed as Gamma(k + 1) (gamma / ln_gamma) at every site: %s' % sorted(set(short(x) for x in forms[1.0])))
     elif not forms:
         rep.undecided('normaliser-agree', key, 'no gamma(count) site found', proof=False)
     else:
